@@ -168,6 +168,44 @@ def one_scenario(chk, idx, branch):
     return k
 
 
+def big_same_file(chk, idx, nfiles, nlines, threads):
+    """many large records for the SAME source file, several workers: every artifact's counts are in the sum (a worker must
+    not take a big entry out of the result map while another one adds to it).  Oracle only: the records are too large for the
+    trace replay to add anything."""
+    rng = chk.rng
+    root = vlib.scratch("c02_big%d" % idx)
+    ind = os.path.join(root, "in")
+    os.makedirs(ind, exist_ok=True)
+    for j in range(nfiles):
+        body = "".join("DA:%d,1\n" % l for l in range(1, nlines + 1))
+        open(os.path.join(ind, "b%02d.info" % j), "w").write(
+            "TN:big%d\nSF:src/hot.c\nFN:%d,own_%d\nFNDA:1,own_%d\n%sBRDA:%d,0,0,1\nend_of_record\n" % (j, j + 1, j, j, body, 100 + j))
+    rc, out, err = pipeline.run_cli([ind], threads, True, timeout=120, cwd=root, sched=rng.randrange(1, 10**6))
+    chk.count()
+    hist = {"inputs": "%d tracefiles, each: SF:src/hot.c, FN/FNDA own_<j>, DA:1..%d with count 1, BRDA:<100+j>,0,0,1" % (nfiles, nlines), "threads": threads}
+    if rc != 0:
+        chk.violation(dict(hist, kind="oracle", clause="run must finish with status 0", status=rc, stderr=err[-600:]), tag="run")
+        return
+    rep = pipeline.read_lcov_report(out)
+    secs = rep.get(b"src/hot.c", [])
+    bad = None
+    if len(secs) != 1:
+        bad = "src/hot.c reported %d times" % len(secs)
+    else:
+        r = secs[0]
+        wrong = [(l, c) for l, c in r["lines"] if c != nfiles]
+        if len(r["lines"]) != nlines or wrong:
+            bad = "line counts: %d lines (expected %d), first wrong %s (every count must be %d)" % (len(r["lines"]), nlines, wrong[:3], nfiles)
+        elif len(r["funcs"]) != nfiles or not all(f[2] for f in r["funcs"]):
+            bad = "%d functions reported / executed flags %s, expected %d executed" % (len(r["funcs"]), sorted(set(f[2] for f in r["funcs"])), nfiles)
+        elif len(r["branches"]) != nfiles or not all(v == [True] for _, v in r["branches"]):
+            bad = "%d branch lines, expected %d taken" % (len(r["branches"]), nfiles)
+    if bad:
+        chk.violation(dict(hist, kind="oracle", clause="report = aggregation of every artifact exactly once: " + bad), tag="run")
+    else:
+        chk.nontrivial(["big-same-file", idx, nfiles, nlines, threads])
+
+
 def validate_traces(chk):
     pend = chk._pending
     exprs = [vlib.app("run_pipeline", t, 2 * t, False, items, labels_coq(labels)) for _, t, items, labels, _, _, _ in pend]
@@ -213,6 +251,8 @@ def run(chk):
     sizes = []
     for i in range(n):
         sizes.append(one_scenario(chk, i, branch=(i % 3 != 0)))
+    for i, (nf, nl, t) in enumerate([(24, 9000, 8), (16, 20000, 4)] + ([] if chk.tier == "quick" else [(48, 20000, 8), (32, 70000, 16), (24, 9000, 2)] * 3)):
+        big_same_file(chk, i, nf, nl, t)
     okn = validate_traces(chk)
     chk.cov["traces_validated_against_impl"] = okn
     chk.extra["distribution"] = {"scenarios": n, "artifact_counts": sizes, "runs": chk.cov["evaluations"]}
@@ -221,6 +261,7 @@ def run(chk):
                        "reader must be the C01 aggregate of the per-artifact parse results (each artifact alone through the harness), one record per file; (b) the "
                        "per-thread hook event log is scheduled into a label sequence which Coq replays through Model/Pipeline.v (vm_compute): it must be an execution "
                        "ending in MExit 0 whose merged set is the item set and whose map equals the report; (c) all runs of a scenario observably equal. "
+                       "plus 16-48 large tracefiles (9000-70000 lines each) for one and the same source file on 2-16 workers (oracle only). "
                        "non-trivial = a run whose trace was validated; distinct by (scenario, run)")
     chk.cov["trusted_base"] = ["Coq kernel; vm_compute for trace replay", "hooks H1/H2 in /repo (cfg mozilla_grcov_verif)", "the Python scheduler that orders per-thread events (its output is re-checked by Coq)",
                                "modelled, not verified: crossbeam bounded channel = linearizable FIFO with disconnect, std Mutex = mutual exclusion + poisoning, thread spawn/join, process::exit"]
